@@ -141,7 +141,10 @@ def from_py(env, T, p, numeric_enums=False, unk=False):
         data, n = bytes(p[0]), p[1]
         if n < 0 or len(data) != (n + 7) // 8:
             raise BadShape('BIT STRING length: %r' % (p,))
-        return {'n': n, 'b': list(data)}
+        out = list(data)
+        if n % 8:
+            out[-1] &= (0xff << (8 - n % 8)) & 0xff      # padding bits are not part of the abstract value
+        return {'n': n, 'b': out}
     if k == 'OCTS':
         if not isinstance(p, (bytes, bytearray)):
             raise BadShape('OCTET STRING: %r' % (p,))
